@@ -23,6 +23,7 @@ PROP_MODULES = {
     "C08": ["contracts.c08"],
     "C04": ["contracts.c04"],
     "C11": ["contracts.c11"],
+    "C12": ["contracts.c12"],
 }
 
 
@@ -93,7 +94,7 @@ def run_property(prop, tier="quick", seed=0, jobs_n=None, only=None):
     if only:
         jobs = [j for j in jobs if only in j[2]]
     work = [(m, i, tier, seed, regions) for (m, i, cid, tgt, d) in jobs]
-    n = jobs_n or min(16, max(1, len(work)))
+    n = jobs_n or min(int(os.environ.get('VERIF_JOBS', '8')), max(1, len(work)))  # 8 workers: 16 made z3 runs unstable (cache/memory contention)
     if n > 1 and len(work) > 1:
         with mp.get_context("fork").Pool(n) as pool:
             results = pool.map(_worker, work, chunksize=1)
